@@ -1,5 +1,6 @@
 import LSProofs.Gen.Good
 import LSProofs.Gen.CloneDrop
+import LSProofs.Gen.Collect
 import LSProofs.Gen.Clear
 import LSProofs.StepSpec
 import LSProofs.Refine
@@ -129,12 +130,53 @@ theorem finishUtf16G_eq (w : World) (d : Nat) (res : Res Unit) : finishUtf16G w 
   | pidx hp r => simp only [finishUtf16G, finishUtf16, finishTempG_eq]
 
 
+/-! ## The iterator-driven operations go through the translated `Extend` / `FromIterator` impls -/
+
+/-- `char` items are at most four bytes (what `encode_utf8(&mut [0; 4])` is handed) -/
+def Op.CharItems : Op → Prop
+  | .extendChars _ _ items | .collectChars _ _ items => ∀ s, some s ∈ items → s.length ≤ 4
+  | _ => True
+
+theorem map_toChr_b (items : List (Option Bytes)) : (items.map G.toChr).map (Option.map (·.b)) = items := by
+  induction items with
+  | nil => rfl
+  | cons x xs ih => cases x <;> simp [G.toChr, ih]
+
+theorem map_toStr_b (items : List (Option Bytes)) : (items.map G.toStr).map (Option.map (·.b)) = items := by
+  induction items with
+  | nil => rfl
+  | cons x xs ih => cases x <;> simp [G.toStr, ih]
+
+theorem mem_toChr {items : List (Option Bytes)} {c : Chr} (h : some c ∈ items.map G.toChr) : some c.b ∈ items := by
+  simp only [List.mem_map] at h
+  obtain ⟨o, ho, he⟩ := h
+  cases o with
+  | none => cases he
+  | some b => simp only [G.toChr, Option.map_some, Option.some.injEq] at he; subst he; exact ho
+
+theorem mem_toStr {items : List (Option Bytes)} {t : Str} (h : some t ∈ items.map G.toStr) : some t.b ∈ items := by
+  simp only [List.mem_map] at h
+  obtain ⟨o, ho, he⟩ := h
+  cases o with
+  | none => cases he
+  | some b => simp only [G.toStr, Option.map_some, Option.some.injEq] at he; subst he; exact ho
+
+theorem collectOutW_collectOut (w : World) (d : Nat) (rf : Refuse) (res : Res Unit) :
+    G.collectOutW w d (collectOut rf w.statics res) = finishTemp w d res := by
+  cases res with
+  | ok v hp r => rfl
+  | ub u => rfl
+  | err hp r => simp only [collectOut, finishTemp]; cases releaseRepr hp r <;> rfl
+  | pidx hp r => simp only [collectOut, finishTemp]; cases releaseRepr hp r <;> rfl
+  | pcb hp r => simp only [collectOut, finishTemp]; cases releaseRepr hp r <;> rfl
+
 /-! ## `stepG = step` on well-formed worlds -/
 
 /-- **One public call executed by the translated code is the call executed by the hand model**, from every
 well-formed world in which no reference count has reached `isize::MAX`, for all 28 operations, every valid
 argument and every allocator. -/
-theorem stepG_eq_step (rf : Refuse) {w : World} (hw : Wf w) (hrc : RcSmall w.heap) (op : Op) (hv : op.ArgsValid) :
+theorem stepG_eq_step (rf : Refuse) {w : World} (hw : Wf w) (hrc : RcSmall w.heap) (op : Op) (hv : op.ArgsValid)
+    (hc : Op.CharItems op) :
     stepG rf w op = step rf w op := by
   cases op with
   | new d => rfl
@@ -185,42 +227,45 @@ theorem stepG_eq_step (rf : Refuse) {w : World} (hw : Wf w) (hrc : RcSmall w.hea
     | none => rfl
     | some r =>
       obtain ⟨t, g, _⟩ := good_of_wf hw hg
-      have hr := reserve_sat g rf hint
-      simp only [G_reserve_eq g rf hint]
-      revert hr
-      cases reserve rf w.statics w.heap r hint with
-      | ok v hp1 r1 => intro ⟨g1, _, _⟩; (simp only [pushLoopG_eq rf items hp1 r1 ⟨_, g1⟩ hv] <;> try rfl)
-      | err hp1 r1 => intro hu; (simp only [pushLoopG_eq rf items hp1 r1 ⟨_, unchanged_good g hu⟩ hv] <;> try rfl)
-      | pidx hp1 r1 => intro hf; exact hf.elim
-      | pcb hp1 r1 => intro hf; exact hf.elim
-      | ub u => intro _; rfl
+      have hvi : ∀ c, some c ∈ (items.map G.toChr) → Valid c.b ∧ c.b.length ≤ 4 :=
+        fun c hm => ⟨hv c.b (mem_toChr hm), hc c.b (mem_toChr hm)⟩
+      have ht := extend_char_tie rf ⟨hint, items.map G.toChr⟩ r g hvi
+      simp only [map_toChr_b] at ht
+      simp only [G.extendChars, ht]
+      cases reserve rf w.statics w.heap r hint <;> rfl
   | extendStrs h items =>
     simp only [stepG, step]
     cases hg : w.get h with
     | none => rfl
     | some r =>
       obtain ⟨t, g, _⟩ := good_of_wf hw hg
-      (simp only [pushLoopG_eq rf items w.heap r ⟨_, g⟩ hv] <;> try rfl)
+      have hvi : ∀ t', some t' ∈ (items.map G.toStr) → Valid t'.b := fun t' hm => hv t'.b (mem_toStr hm)
+      have ht := extend_str_tie rf ⟨items.map G.toStr⟩ w.heap r ⟨_, g⟩ hvi
+      simp only [map_toStr_b] at ht
+      simp only [G.extendStrs, ht]
   | collectChars d hint items =>
-    simp only [stepG, step, G_withCapacity_eq, finishTempG_eq]
+    simp only [stepG, step]
     cases hd : w.get d with
     | some r => rfl
     | none =>
       simp only [Option.isSome_none, Bool.false_eq_true, if_false]
-      rcases withCapacity_fresh (st := w.statics) (linv_empty hw hd) rf hint with ⟨hp1, he, hs⟩ | ⟨hp1, r, he, g, _⟩
-      · rw [he]
-        have gi : IsGood w d hp1 (.inl inlEmpty) :=
-          ⟨[], good_congr hs (good_inline_fresh (linv_empty hw hd) [] valid_nil (by simp))⟩
-        (simp only [pushLoopG_eq rf items hp1 _ gi hv] <;> try rfl)
-      · rw [he]; (simp only [pushLoopG_eq rf items hp1 r ⟨_, g⟩ hv] <;> try rfl)
+      have hvi : ∀ c, some c ∈ (items.map G.toChr) → Valid c.b ∧ c.b.length ≤ 4 :=
+        fun c hm => ⟨hv c.b (mem_toChr hm), hc c.b (mem_toChr hm)⟩
+      have ht := from_iter_char_tie hw hd rf ⟨hint, items.map G.toChr⟩ (.inl inlEmpty) hvi
+      simp only [map_toChr_b] at ht
+      rw [ht]
+      rcases withCapacity rf w.heap hint with ⟨o, hp0⟩
+      cases o <;> simp only [collectOutW_collectOut]
   | collectStrs d items =>
-    simp only [stepG, step, finishTempG_eq]
+    simp only [stepG, step]
     cases hd : w.get d with
     | some r => rfl
     | none =>
       simp only [Option.isSome_none, Bool.false_eq_true, if_false]
-      have gi : IsGood w d w.heap (.inl inlEmpty) := ⟨[], good_inline_fresh (linv_empty hw hd) [] valid_nil (by simp)⟩
-      (simp only [pushLoopG_eq rf items w.heap _ gi hv] <;> try rfl)
+      have hvi : ∀ t', some t' ∈ (items.map G.toStr) → Valid t'.b := fun t' hm => hv t'.b (mem_toStr hm)
+      have ht := from_iter_str_tie hw hd rf ⟨items.map G.toStr⟩ (.inl inlEmpty) hvi
+      simp only [map_toStr_b] at ht
+      rw [ht, collectOutW_collectOut]
   | display d pieces =>
     simp only [stepG, step, finishTempG_eq, G_releaseRepr_eq]
     cases hd : w.get d with
@@ -289,14 +334,15 @@ theorem rcSmall_of_pool {w : World} (hw : Wf w) (hp : w.pool.length ≤ isize_MA
   exact Nat.le_trans (List.countP_le_length) hp
 
 theorem runG_eq_run (rf : Refuse) (ops : List Op) : ∀ (w : World), Wf w → (∀ op ∈ ops, op.ArgsValid) →
-    RcSmallAlong rf w ops → runG rf w ops = run rf w ops ∧ outsG rf w ops = outs rf w ops := by
+    (∀ op ∈ ops, Op.CharItems op) → RcSmallAlong rf w ops → runG rf w ops = run rf w ops ∧ outsG rf w ops = outs rf w ops := by
   induction ops with
-  | nil => intro w _ _ _; exact ⟨rfl, rfl⟩
+  | nil => intro w _ _ _ _; exact ⟨rfl, rfl⟩
   | cons op ops ih =>
-    intro w hw hv hs
-    have he := stepG_eq_step rf hw hs.1 op (hv op (List.mem_cons_self ..))
+    intro w hw hv hcs hs
+    have he := stepG_eq_step rf hw hs.1 op (hv op (List.mem_cons_self ..)) (hcs op (List.mem_cons_self ..))
     have hw1 := (step_refines rf hw op (hv op (List.mem_cons_self ..))).2.1
-    obtain ⟨h1, h2⟩ := ih (step rf w op).1 hw1 (fun o ho => hv o (List.mem_cons_of_mem _ ho)) hs.2
+    obtain ⟨h1, h2⟩ := ih (step rf w op).1 hw1 (fun o ho => hv o (List.mem_cons_of_mem _ ho))
+      (fun o ho => hcs o (List.mem_cons_of_mem _ ho)) hs.2
     simp only [runG, run, outsG, outs, he]
     exact ⟨h1, by rw [h2]⟩
 
@@ -305,10 +351,10 @@ source, is a run of the `String`-level specification** (each handle reads what a
 calls holds, values returned are `String`'s, panics exactly where `String` panics, failures only where an allocation
 can be refused and then nothing changed), the world stays well-formed and no model alarm is raised. -/
 theorem runG_refines (rf : Refuse) (ops : List Op) (w : World) (hw : Wf w) (hv : ∀ op ∈ ops, op.ArgsValid)
-    (hs : RcSmallAlong rf w ops) :
+    (hcs : ∀ op ∈ ops, Op.CharItems op) (hs : RcSmallAlong rf w ops) :
     Spec.Run w.statics w.text ops (runG rf w ops).text (outsG rf w ops) ∧ Wf (runG rf w ops) ∧
     ∀ u, Out.ub u ∉ outsG rf w ops := by
-  obtain ⟨h1, h2⟩ := runG_eq_run rf ops w hw hv hs
+  obtain ⟨h1, h2⟩ := runG_eq_run rf ops w hw hv hcs hs
   rw [h1, h2]
   exact run_refines rf ops w hw hv
 
